@@ -137,6 +137,8 @@ def run(chk, F, tier):
                           b.loc(c["l"]), witness={"labels": sorted(map(str, labs))[:8]})
     chk.floor("rowan range-precondition call sites in handlers", n, 18)
     chk.floor("client-tainted sites", n_client, 8)
+    from rules import c25c
+    c25c.run_r25c(chk, F)
     # R25b
     tr = None
     for k, b in F.bodies.items():
